@@ -162,6 +162,27 @@ def step (line : String) : String :=
       let tags := exportMTextContent t
       ";".intercalate (tags.map (fun p => toString p.1 ++ ":" ++ showCps p.2)) ++ "|" ++ showCps (loadMTextContent tags)
     | none => "bad-op"
+  | ["wrap", f, s] => match parseCps s with
+    | some t =>
+      let fast := f = "1"
+      let showE (r : Except PyErr String) : String := match r with | .ok x => x | .error e => "err " ++ showErr e
+      showE ((mtextPlainText sp fast t).map showCps) ++ "|" ++
+        showE ((mtextPlainLines sp fast t).map (fun ls => ";".intercalate (ls.map showCps))) ++ "|" ++
+        showCps (allColumnsPlainText sp t) ++ "|" ++ ";".intercalate ((allColumnsPlainLines sp false t).map showCps) ++ "|" ++
+        ";".intercalate ((allColumnsPlainLines sp true t).map showCps)
+    | none => "bad-op"
+  | ["scale", s] => match parseCps s with
+    | some t => ";".intercalate ((scaleSegs t).map (fun g => match g with
+        | .text x => "T:" ++ showCps x | .scaled n => "S:" ++ showCps n))
+    | none => "bad-op"
+  | ["nodc", s] => match parseCps s with
+    | some t => if noDoubleCaret t then "1" else "0"
+    | none => "bad-op"
+  | ["argfree", s] => match parseCps s with
+    | some t =>
+      let d := caretDecode t
+      if argFree d then (if argFreeAgree d then "in 1" else "in 0") else "out"
+    | none => "bad-op"
   | ["agree", s] => match parseCps s with
     | some t => if agreeClass sp (caretDecode t) then "1" else "0"
     | none => "bad-op"
